@@ -187,6 +187,12 @@ fn check(id: &str, tier: Tier, seed: u64) -> i32 {
         }
     }
 
+    if let Ok(t) = std::env::var("PV_SECOND_BUILD") {
+        if let Ok(v) = serde_json::from_str::<Value>(&t) {
+            run.extra("second_build", v);
+        }
+    }
+
     // 2. exploration
     if !run.stopped() {
         pv::props::run(id, &run);
